@@ -83,10 +83,6 @@ def processDispatch (env : Env) (sr : Msg → Bool) (m : Msg) (valid : Bool) (n 
     let c ← M.get
     if valid && n == c.sess.nextIn then M.emit (.deliver m) else pure ()
 
-/-- `except Exception: self.log.exception(…)` – the exception is swallowed; recorded as `caught k`. -/
-def swallow {α} (dflt : α) (x : M α) : M α :=
-  M.tryCatch x fun ex => do M.emit (.caught ex); pure dflt
-
 /-- `_process_message` (l.790-876).  `_validate_integrity` and the `disconnect` it triggers run BEFORE
 the `try`: their exceptions escape.  Inside the `try`, `except Exception` swallows; the `finally`
 runs `_finalize_message` iff `is_valid_msg_num` was assigned `True` before the exception / return, and
